@@ -19,4 +19,5 @@ for d in benign/*/; do
   done
   git -C /repo checkout -- .
 done
+(cd sim && CARGO_NET_OFFLINE=true cargo build --release --offline >/dev/null 2>&1)
 exit $rc
